@@ -372,4 +372,5 @@ class PersLandscapeApprox(PersLandscape):
         Returns the supremum norm of an approximate persistence landscape
 
         """
+        self.compute_landscape()
         return np.max(np.abs(self.values))
